@@ -1,4 +1,5 @@
 #pragma once
+#include <limits>
 #include <string>
 #include <memory>
 
@@ -52,6 +53,16 @@ namespace sqf
             float value() const { return m_value; }
             void value(float f) { m_value = f; }
             operator float() { return m_value; }
+            // Conversion of a scalar to an integral type that saturates instead of overflowing (out of range is undefined
+            // behaviour for a plain cast); NaN becomes the lowest value, which every index check rejects.
+            template<typename T>
+            static T saturate_cast(float f)
+            {
+                if (f != f) { return std::numeric_limits<T>::lowest(); }
+                if (f >= static_cast<float>(std::numeric_limits<T>::max())) { return std::numeric_limits<T>::max(); }
+                if (f <= static_cast<float>(std::numeric_limits<T>::lowest())) { return std::numeric_limits<T>::lowest(); }
+                return static_cast<T>(f);
+            }
             static void set_decimals(int val) { s_decimals = val; }
         };
 
